@@ -86,6 +86,8 @@ def np_round(x, decimals=0):
         return round(x, decimals)
     if not isinstance(decimals, int):
         raise Undecided("round with symbolic decimals")
+    if z3.is_int(x.t) and decimals >= 0:
+        return x  # whole numbers are fixed points of rounding
     scale = 10 ** decimals
     r = z3.ToReal(round_half_even_t(real(x.t) * scale)) / scale
     return x.like(r, nan=x.nan, inf=x.inf)
